@@ -37,6 +37,9 @@ type kase struct {
 	// (a TCP listener), "own-error" = an error value of its own, as session
 	// and in-memory listeners do
 	Close string `json:"close,omitempty"`
+	// Late: the sub-listeners are registered while Start is already running
+	// (after it has handled a first, rejected, connection)
+	Late bool `json:"late,omitempty"`
 }
 
 // ownErrListener reports closure with its own error value. Asked again and
@@ -49,6 +52,17 @@ type ownErrListener struct {
 }
 
 var errSessionShutdown = errors.New("session shutdown")
+
+// countingListener counts how often the split listener asked for a connection.
+type countingListener struct {
+	net.Listener
+	calls atomic.Int64
+}
+
+func (l *countingListener) Accept() (net.Conn, error) {
+	l.calls.Add(1)
+	return l.Listener.Accept()
+}
 
 func (l *ownErrListener) Accept() (net.Conn, error) {
 	if !l.closed.Load() {
@@ -72,12 +86,16 @@ var clients = []string{
 	"auth:", "auth:a", "auth:b", "auth:a,b", "auth:x", "auth:PREF,a", "auth:PREF,x", "auth:" + nenet.AuthenticatedNonSpecificNextProto, "auth:" + nenet.UnauthenticatedNextProto,
 	"base:", "base:a", "base:" + nenet.AuthenticatedNonSpecificNextProto, "base:" + nenet.UnauthenticatedNextProto, "base:" + nodeenrollment.CertificatePreferenceV1Prefix + "xyz",
 	"fetch",
+	// another registered node replays this node's (clear-text) authentication
+	// request behind its own valid certificate
+	"replay:", "replay:a",
 }
 
 type world struct {
 	seed    int64
 	st      *harness.MemStore
 	node    *harness.Enrolled
+	node2   *harness.Enrolled
 	pending *harness.MemStore
 	baseTLS *tls.Config
 }
@@ -88,6 +106,10 @@ func newWorld(seed int64) *world {
 	harness.InitRoots(w.st)
 	var err error
 	w.node, err = harness.Enroll(w.st, harness.NewCertKey("K1", seed), harness.NewEncKey("E1", seed), harness.Bytes("n1", 32), nil, nil)
+	if err != nil {
+		panic(err)
+	}
+	w.node2, err = harness.Enroll(w.st, harness.NewCertKey("K2", seed), harness.NewEncKey("E2", seed), harness.Bytes("n2", 32), nil, nil)
 	if err != nil {
 		panic(err)
 	}
@@ -120,6 +142,8 @@ func (w *world) one(k kase, r *engine.Report) (string, string) {
 		own = &ownErrListener{Listener: tcp}
 		base = own
 	}
+	counter := &countingListener{Listener: base}
+	base = counter
 	il, err := protocol.NewInterceptingListener(&protocol.InterceptingListenerConfiguration{Context: harness.Ctx, Storage: w.st.Clone(), BaseListener: base, BaseTlsConfiguration: w.baseTLS})
 	if err != nil {
 		panic(err)
@@ -127,6 +151,23 @@ func (w *world) one(k kase, r *engine.Report) (string, string) {
 	sl, err := nenet.NewSplitListener(il)
 	if err != nil {
 		panic(err)
+	}
+	startDone := make(chan error, 1)
+	if k.Late {
+		go func() { startDone <- sl.Start() }()
+		// a first connection that is no TLS at all: once Start asks for the
+		// next one it is inside its loop
+		if raw, err := net.DialTimeout("tcp", tcp.Addr().String(), 10*time.Second); err == nil {
+			raw.Write([]byte("not tls\n"))
+			raw.Close()
+		}
+		for guard := time.Now().Add(30 * time.Second); counter.calls.Load() < 2; {
+			if time.Now().After(guard) {
+				r.InfraError("SplitListener.Start did not come back for a second connection")
+				return "", ""
+			}
+			time.Sleep(time.Millisecond)
+		}
 	}
 	var mu sync.Mutex
 	var deliveries []delivery
@@ -170,8 +211,9 @@ func (w *world) one(k kase, r *engine.Report) (string, string) {
 			}
 		}(name, ln)
 	}
-	startDone := make(chan error, 1)
-	go func() { startDone <- sl.Start() }()
+	if !k.Late {
+		go func() { startDone <- sl.Start() }()
+	}
 
 	// ---- client
 	landed := "" // "@name", "closed", "handshake-failed", "not-authorized"
@@ -200,6 +242,22 @@ func (w *world) one(k kase, r *engine.Report) (string, string) {
 		}
 		c := &harness.AuthClient{Request: &types.GenerateServerCertificatesRequest{CertificatePublicKeyPkix: w.node.K.Pkix, Nonce: nonce, NonceSignature: w.node.K.Sign(nonce)},
 			Chain: [][]byte{b.CertificateDer, b.CaCertificateDer}, Key: w.node.K.Priv, Preference: harness.CaKeyId(b.CaCertificateDer), ExtraProtos: extras}
+		conn, err := c.Connect(addr)
+		if err != nil {
+			landed = "handshake-failed"
+		} else {
+			landed = readTag(conn)
+			conn.Close()
+		}
+	case strings.HasPrefix(k.Client, "replay:"):
+		var extras []string
+		if e := strings.TrimPrefix(k.Client, "replay:"); e != "" {
+			extras = strings.Split(e, ",")
+		}
+		nonce := harness.Bytes("c17", 32)
+		b2 := w.node2.Creds.CertificateBundles[0]
+		c := &harness.AuthClient{Request: &types.GenerateServerCertificatesRequest{CertificatePublicKeyPkix: w.node.K.Pkix, Nonce: nonce, NonceSignature: w.node.K.Sign(nonce)},
+			Chain: [][]byte{b2.CertificateDer, b2.CaCertificateDer}, Key: w.node2.K.Priv, Preference: harness.CaKeyId(b2.CaCertificateDer), ExtraProtos: extras}
 		conn, err := c.Connect(addr)
 		if err != nil {
 			landed = "handshake-failed"
@@ -316,6 +374,10 @@ func (w *world) one(k kase, r *engine.Report) (string, string) {
 		}
 	case k.Client == "fetch":
 		allowed["not-authorized"] = true
+	case strings.HasPrefix(k.Client, "replay:"):
+		// the certificate does not belong to the key the request was verified for
+		allowed["handshake-failed"] = true
+		allowed["closed"] = true
 	}
 	if !allowed[landed] {
 		var a []string
@@ -338,7 +400,7 @@ func clientClass(c string) string {
 }
 
 func describe(k kase) string {
-	return fmt.Sprintf("sub-listeners %v native=%v client %q close=%q", k.Subs, k.Native, k.Client, k.Close)
+	return fmt.Sprintf("sub-listeners %v native=%v client %q close=%q registered-late=%v", k.Subs, k.Native, k.Client, k.Close, k.Late)
 }
 
 func run(c *engine.Ctx, r *engine.Report) {
@@ -354,12 +416,15 @@ func run(c *engine.Ctx, r *engine.Report) {
 		}
 		for _, native := range []bool{false, true} {
 			for _, cl := range clients {
-				for _, cm := range []string{"", "own-error"} {
+				for ci, cm := range []string{"", "own-error", "late"} {
 					i++
 					if !c.Mine(i) {
 						continue
 					}
 					k := kase{Subs: subs, Native: native, Client: cl, Seed: c.Seed, Close: cm}
+					if ci == 2 {
+						k.Close, k.Late = "", true
+					}
 					r.Eval(1)
 					if sig, msg := w.one(k, r); sig != "" {
 						r.Violate(sig, msg, k)
@@ -373,6 +438,73 @@ func run(c *engine.Ctx, r *engine.Report) {
 			}
 		}
 	}
+}
+
+// raceRun: the registry free-running under the race detector (sampling
+// companion of the scheduler phase): goroutines race to GetListener the same
+// fresh name while others look names up, then the split listener stops.
+func raceRun(c *engine.Ctx, r *engine.Report) {
+	rounds := 300
+	if c.Thorough() {
+		rounds = 3000
+	}
+	for i := 0; i < rounds; i++ {
+		base, err := net.Listen("tcp", "127.0.0.1:0")
+		if err != nil {
+			r.InfraError(err.Error())
+			return
+		}
+		il, err := protocol.NewInterceptingListener(&protocol.InterceptingListenerConfiguration{Context: harness.Ctx, Storage: harness.NewMemStore(), BaseListener: base})
+		if err != nil {
+			panic(err)
+		}
+		sl, err := nenet.NewSplitListener(il)
+		if err != nil {
+			panic(err)
+		}
+		const callers = 4
+		got := make([]net.Listener, callers)
+		var wg sync.WaitGroup
+		startDone := make(chan struct{})
+		go func() { sl.Start(); close(startDone) }()
+		for g := 0; g < callers; g++ {
+			wg.Add(1)
+			go func(g int) {
+				defer wg.Done()
+				name := "svc"
+				if g == callers-1 {
+					name = "other"
+				}
+				ln, err := sl.GetListener(name, nodeenrollment.WithNativeConns(g%2 == 0))
+				if err == nil {
+					got[g] = ln
+				}
+			}(g)
+		}
+		wg.Wait()
+		r.Eval(1)
+		for g := 1; g < callers-1; g++ {
+			if got[g] != got[0] {
+				r.Violate("race-run:two-objects", fmt.Sprintf("free-running round %d: two concurrent callers of GetListener(\"svc\") hold different sub-listeners", i), map[string]any{"free_running": true})
+				base.Close()
+				<-startDone
+				return
+			}
+		}
+		base.Close()
+		<-startDone
+		for g := 0; g < callers; g++ {
+			if got[g] == nil {
+				continue
+			}
+			if _, err := got[g].Accept(); !errors.Is(err, net.ErrClosed) {
+				r.Violate("race-run:not-closed", fmt.Sprintf("free-running round %d: a sub-listener answered %v after the base listener was closed", i, err), map[string]any{"free_running": true})
+				return
+			}
+			got[g].Close()
+		}
+	}
+	r.Outcome("free-running-rounds")
 }
 
 type registryScenario struct {
@@ -412,12 +544,13 @@ func init() {
 	engine.Register(&engine.CheckDef{
 		ID:    "C17",
 		Level: "exploration",
-		Rule: "every subset of sub-listeners {a, b, __AUTH__, __UNAUTH__} (16) x native connections {off,on} x 15 client kinds (authenticated with extras [], [a], [b], [a,b], [x], [certificate-preference entry, a], [certificate-preference entry, x], [__AUTH__], [__UNAUTH__]; base-TLS clients offering [], [a], [__AUTH__], [__UNAUTH__], a certificate-preference entry; a fetch-only client) x base listener closure reported {as net.ErrClosed, as an error value of its own} = 960 real topologies over the real InterceptingListener + SplitListener; the receiving sub-listener answers with its name so routing is observed deterministically; afterwards the base listener is closed, Start must stop without asking it again and every sub-listener must report net.ErrClosed; scheduler phase (sub-listener registry, get-or-create): 2-3 concurrent GetListener calls for the same / different names, with and without pre-registered names, and with Start stopping over a closed base listener at the same time, every interleaving within 2 preemptions (1 with the stop thread; +1 in the thorough tier) plus all interleavings up to sleep-set equivalence of the two-caller scenarios - all callers of one name must hold the one registered object and every handle must report closed after the stop; " +
+		Rule: "every subset of sub-listeners {a, b, __AUTH__, __UNAUTH__} (16) x native connections {off,on} x 17 client kinds (authenticated with extras [], [a], [b], [a,b], [x], [certificate-preference entry, a], [certificate-preference entry, x], [__AUTH__], [__UNAUTH__]; base-TLS clients offering [], [a], [__AUTH__], [__UNAUTH__], a certificate-preference entry; a fetch-only client; another registered node replaying this node's request behind its own certificate, with extras [] and [a]) x {base listener closure reported as net.ErrClosed, as an error value of its own, sub-listeners registered while Start is already running} = 1632 real topologies over the real InterceptingListener + SplitListener; the receiving sub-listener answers with its name so routing is observed deterministically; afterwards the base listener is closed, Start must stop without asking it again and every sub-listener must report net.ErrClosed; scheduler phase (sub-listener registry, get-or-create): 2-3 concurrent GetListener calls for the same / different names, with and without pre-registered names, and with Start stopping over a closed base listener at the same time, every interleaving within 2 preemptions (1 with the stop thread; +1 in the thorough tier, whose four- and three-plus-stop-caller scenarios use 2) plus all interleavings up to sleep-set equivalence of the two-caller scenarios without pre-registered names and stop - all callers of one name must hold the one registered object and every handle must report closed after the stop; " +
 			"distinct_nontrivial counts topologies (distinct by construction) that were routed and judged",
 		Assumptions: []string{"when several registered names match the client's extras any of them may receive the connection (map iteration order)", "GetListener after close is documented as unsupported and not exercised"},
 		Shards:      func(c *engine.Ctx) int { return 8 },
 		Run:         run,
 		SchedRun:    schedRun,
+		RaceRun:     raceRun,
 		SchedShards: 4,
 		Replay:      replay,
 	})
